@@ -395,6 +395,37 @@ def month_to_segment(m, cname, month):
     return fin.run_function(f, {params(f)[0]: month})
 
 
+def to_ymd_by_evaluation(chk, rid, m, tables):
+    f = m.func("RegularPeriodMixin.to_ymd")
+    chk.saw(m, "RegularPeriodMixin.to_ymd")
+    bad, n_cases = None, 0
+    pos_param = params(f)[1] if len(params(f)) > 1 else "position"
+    try:
+        for cname, fr in REGULAR.items():
+            for position in ("start", "middle", "end"):
+                for per in range(1, fr + 1):
+                    for year in (1900, 2000, 2023, 2024):
+                        got = fin.run_function(f, {pos_param: position}, env={"self": "SELF", "self._MONTH_DAY_RESOLUTION": tables[cname]},
+                                               funcs={"self.to_year_segment": lambda year=year, per=per: (year, per), "_ca.monthrange": calendar.monthrange})
+                        n_cases += 1
+                        mth, day = tables[cname][position][per]
+                        want = (year, mth, day if day is not None else calendar.monthrange(year, mth)[1])
+                        if tuple(got) != want:
+                            bad = (cname, position, per, year, tuple(got), want)
+                            break
+                    if bad:
+                        break
+                if bad:
+                    break
+            if bad:
+                break
+        chk.ob(rid, "dates.RegularPeriodMixin.to_ymd", bad is None,
+               f"{n_cases} cases (class x position x segment x year incl. leap): (year, table month, table day or the month's last day when the table says None)"
+               if bad is None else f"{bad[0]} position={bad[1]} segment={bad[2]} year={bad[3]}: to_ymd gives {bad[4]} (want {bad[5]})", m.loc(f), sure=True)
+    except fin.NotFinite as ex:
+        chk.undecided(rid, "dates.RegularPeriodMixin.to_ymd", f"not evaluable: {ex}", m.loc(f))
+
+
 def rule_r4(chk, m):
     chk.rule("C09-R4", "for each regular class and segment k: start[k] = (first month of k, 1), end[k] = (last month of k, last day; "
              "None only for February), start <= middle <= end inside k; month_to_segment(m) is the segment whose months contain m; "
@@ -442,32 +473,7 @@ def rule_r4(chk, m):
     # to_ymd / from_ymd
     f = m.func("RegularPeriodMixin.to_ymd")
     chk.saw(m, "RegularPeriodMixin.to_ymd")
-    bad, n_cases = None, 0
-    pos_param = params(f)[1] if len(params(f)) > 1 else "position"
-    try:
-        for cname, fr in REGULAR.items():
-            for position in ("start", "middle", "end"):
-                for per in range(1, fr + 1):
-                    for year in (1900, 2000, 2023, 2024):
-                        got = fin.run_function(f, {pos_param: position}, env={"self": "SELF", "self._MONTH_DAY_RESOLUTION": tables[cname]},
-                                               funcs={"self.to_year_segment": lambda year=year, per=per: (year, per), "_ca.monthrange": calendar.monthrange})
-                        n_cases += 1
-                        mth, day = tables[cname][position][per]
-                        want = (year, mth, day if day is not None else calendar.monthrange(year, mth)[1])
-                        if tuple(got) != want:
-                            bad = (cname, position, per, year, tuple(got), want)
-                            break
-                    if bad:
-                        break
-                if bad:
-                    break
-            if bad:
-                break
-        chk.ob("C09-R4", "dates.RegularPeriodMixin.to_ymd", bad is None,
-               f"{n_cases} cases (class x position x segment x year incl. leap): (year, table month, table day or the month's last day when the table says None)"
-               if bad is None else f"{bad[0]} position={bad[1]} segment={bad[2]} year={bad[3]}: to_ymd gives {bad[4]} (want {bad[5]})", m.loc(f), sure=True)
-    except fin.NotFinite as ex:
-        chk.undecided("C09-R4", "dates.RegularPeriodMixin.to_ymd", f"not evaluable: {ex}", m.loc(f))
+    to_ymd_by_evaluation(chk, "C09-R4", m, tables)
     f = m.func("RegularPeriodMixin.from_ymd")
     chk.saw(m, "RegularPeriodMixin.from_ymd")
     rets = [n for n in walk_no_nested(f) if isinstance(n, ast.Return)]
